@@ -22,8 +22,10 @@ EXPLANATION = (
     "(reorder, diagonal, trace, pair, hyper-contraction, outer product, inner product, scalar factor, general-space "
     "indices, look-alike names, nested inner contraction from the cache) evaluate to sum_contracted prod operands in "
     "target order (einsum) / by labels (libtensor), incl. target indices that sit on two or three operands of one "
-    "contraction (elementwise products); a missing inner contraction raises, libtensor partial traces are refused with "
-    "NotImplementedError. R17b: format_contraction, format_scaling_comment, "
+    "contraction (elementwise products), and numbered index names (i3, a12, k4 next to k; F54): the einsum subscripts "
+    "are single letters, one per index of the contraction (the emitted text is executed, 52 distinct indices are served "
+    "with distinct letters, 53 refused with NotImplementedError), libtensor labels are the names; a missing inner "
+    "contraction raises, libtensor partial traces are refused with NotImplementedError. R17b: format_contraction, format_scaling_comment, "
     "format_prefactor refuse an unknown backend with NotImplementedError and _format_python_prefactor/"
     "_format_cpp_prefactor refuse numbers outside integer/rational/sqrt/products; the scaling comment is a one-line "
     "comment of the backend. R17c: decision table of translate_adcc_names / translate_libadc_names over configured and "
@@ -38,14 +40,15 @@ EXPLANATION = (
     "and limits, the builder is selected by the flag, non-Expr input is refused, schemes with more than one outer "
     "contraction are refused, and the whole program (all symmetry classes, all terms, pure-number terms, inner "
     "contractions before the outer one) evaluates to sum_classes O_class(sum_terms prefactor * symbols * contraction) "
-    "for both backends and both builders, on four hand-built scenarios and on pseudo-random terms with closed schemes "
-    "(20 quick / 120 thorough). R17f: unoptimized_contraction evaluated on terms with exponents, deltas, symbols, "
+    "for both backends and both builders, on hand-built scenarios (incl. tensors without indices alone, next to numbers "
+    "and symbols, squared, next to a contraction: a scalar tensor is an operand of the program, F55) and on "
+    "pseudo-random terms with closed schemes (20 quick / 120 thorough). R17f: unoptimized_contraction evaluated on terms with exponents, deltas, symbols, "
     "spin yields one hyper-contraction whose operand list is the term's tensors/deltas exponent-many times (names and "
     "indices aligned) with the requested target indices, and sums every index that is not a requested target index - "
     "also one that occurs only once (external_indices); divisions are refused. R17h: exploit_perm_sym on expressions "
     "that contain a contribution several times (duplicates up to contracted-index names): the returned classes "
     "re-expand to the expression, no term twice (term worlds and permutation oracle of C10). Reference behaviour "
-    "after the repairs F35-F37, F41: exact numbers never equal floats (sympy >= 1.13; sqrt prefactors are emitted and "
+    "after the repairs F35-F37, F41, F54, F55: exact numbers never equal floats (sympy >= 1.13; sqrt prefactors are emitted and "
     "executed end to end), symbols with exponents that are not positive integers are refused with "
     "NotImplementedError (table and end to end), targets given explicitly sum single-occurrence indices (hand-built "
     "and pseudo-random non-Einstein terms, rule-side model of Contraction(..., external_indices)). "
@@ -544,6 +547,15 @@ def emitted_value(text, env, backend, target):
         return None, str(e)
 
 
+def em_subscripts_ok(text, count):
+    """The einsum subscript string of ``text`` consists of single letters, ``count`` distinct ones."""
+    import re
+    m = re.search(r'einsum\("([^"]*)"', text)
+    if not m or not re.fullmatch(r"[A-Za-z,]*->[A-Za-z]*", m.group(1)):
+        return False
+    return len(set(m.group(1)) - set(",->")) == count
+
+
 def r17a(ctx):
     rule = "R17a"
     fn = ctx.model.fn(GC + "format_contraction")
@@ -595,7 +607,19 @@ def r17a(ctx):
         ctx.check(rule, fn, bool(outs) and all(o.kind == "raise" for o in outs), f"{backend}: unknown inner contraction refused",
                   f"{backend}: an inner contraction that was never emitted is silently used as an operand: {outs}",
                   key=f"{backend} cache miss")
-    ctx.floor(rule, "contractions executed", n, 50)
+    ctx.floor(rule, "contractions executed", n, 68)
+    # einsum: a contraction with more distinct indices than letters has no subscript string: refused, 52 are served
+    for count, served in ((52, True), (53, False)):
+        many = w([f"i{k}" for k in range(1, 27)] + [f"a{k}" for k in range(1, count - 25)])
+        c = contraction(cname, 65, ["A_big", "B_big"], [many[:30], many[20:]], (), external=())
+        sx = make_sx(ctx, f"format_contraction[{count} indices]")
+        outs = sx.run(fn, lambda: dict(contraction=c, contraction_cache={}, backend="einsum"))
+        text, _ = concrete(outs)
+        ok = refused(outs) if not served else (text is not None and em_subscripts_ok(text, count))
+        ctx.check(rule, fn, ok, f"einsum: {count} distinct indices " + ("served with distinct letters" if served else "refused with NotImplementedError"),
+                  f"format_contraction(einsum): a contraction over {count} distinct numbered indices " +
+                  ("is not emitted with one letter per index" if served else "has to be refused with NotImplementedError (52 letters)") +
+                  f", but: {[o.value if o.kind == 'return' else 'raises ' + str(o.exc) for o in outs][:1]}", key=f"einsum {count} indices")
     # libtensor: documented refusals
     i, j, a, b = w("ijab")
     sx = make_sx(ctx, "format_contraction[partial trace]")
